@@ -14,6 +14,7 @@ def c01(tier, seed):
     runs = [Run('e2_phrase', 'asan', ['c01'])]
     if tier == 'thorough':
         runs.append(Run('e2_phrase', 'dbg', ['--tier', 'quick', 'c01'], label='e2_phrase[dbg] c01 (quick set, assertions on)'))
+        runs += [Run('e2_phrase', m, ['--tier', 'quick', 'c01'], label='e2_phrase[%s] c01 (quick set, compiler matrix)' % m) for m in ('gcc-O3', 'clang-O2', 'clang-O3')]
     return check('C01', tier, seed, runs, keyfilter=pref('c01:'), assumptions=ASSUME_COMMON + [
         'factoring: every 11-bit word value in every position in each background seed, all 1- and 2-bit seeds, all coins, all birthdays x supported features x masks; an effect that needs three specific bits in different words outside every background escapes'])
 
@@ -95,7 +96,8 @@ def c13(tier, seed):
     if tier == 'quick':
         runs = [Run('e1_bfs', 'asan', ['api', '2'])]
     else:
-        runs = [Run('e1_bfs', 'asan', ['api', '2']), Run('e1_bfs', 'plain', ['api', '3']), Run('e1_bfs', 'dbg', ['crypt'])]
+        runs = [Run('e1_bfs', 'asan', ['api', '2']), Run('e1_bfs', 'plain', ['api', '3']), Run('e1_bfs', 'dbg', ['crypt']), Run('e1_bfs', 'dbg', ['api', '2'])]
+        runs += [Run('e1_bfs', m, ['api', '2'], label='e1_bfs[%s] api 2 (compiler matrix)' % m) for m in ('gcc-O0', 'gcc-O3', 'gcc-Os', 'clang-O0', 'clang-O2', 'clang-O3')]
     return check('C13', tier, seed, runs, keyfilter=pref('c13:', 'c10:', 'c12:', 'c14:', 'c18:', 'harness:'), extra_cov=e1_cov, assumptions=ASSUME_COMMON + [
         'alphabet (closed, so the search reaches a fixpoint): create with 3 feature arguments, free, free(NULL), crypt with 2 passwords, store/load into an empty slot, encode/decode into an empty slot (en auto, ko coin 2047 explicit, zh_s auto), enable_features {0,1,7}, re-injection of two dependency tables (B: different random source and clock, libc time/malloc/free), arming an allocation fault; 2 seed slots (thorough: 3)',
         'state key = library writable sections + raw bytes of every live seed block + environment; a change that introduces hidden state only grows the state space'])
